@@ -768,4 +768,8 @@ def run(ctx):
         f_candidates(F2, r2)
         have = {o.key for o in res.obs}
         res.add([o for o in r2.obs if o.key not in have])
+    # an input block must be offered every UTxO no other *input* block has taken: what backs the collateral is a pool of its own
+    # (rule shared with C04)
+    res.rule("S-POOLS", "what input blocks took and what backs the collateral are remembered apart: no recording across the two memories")
+    c04.s_pools(F, res)
     return res
